@@ -1091,7 +1091,21 @@ func doAccept() {
 	defer w.Flush()
 	for ti, t := range tables {
 		for a := 1; a < 16; a++ {
-			line := map[string]interface{}{"acc": true, "table": ti, "accept": a, "states": t.states}
+			// per stream additionally: the RECORDED answer and what the definition says (for `inlinedAccept`)
+			full := [][5]uint64{}
+			for _, st := range t.states {
+				rec, def := uint64(0), uint64(0)
+				for _, m := range t.matches {
+					if m == st[0] {
+						rec = 1
+					}
+				}
+				if st[0] < 2 {
+					def = 1
+				}
+				full = append(full, [5]uint64{st[0], st[1], st[2], rec, def})
+			}
+			line := map[string]interface{}{"acc": true, "table": ti, "accept": a, "states": full, "hasu": len(t.uncertain) != 0}
 			func() {
 				defer func() {
 					if rec := recover(); rec != nil {
